@@ -150,3 +150,122 @@ func runW5(c *core.Ctx) {
 		}
 	}
 }
+
+func init() {
+	register(&core.Rule{ID: "W7", Min: 40,
+		Doc: "Bit index vs mask: every use of a canonical option-bit *position* (alg.Bit*, consts.F_* and their aliases that were not shifted) is a shift count (1 << bit), the argument of has_opts, or the jit.Imm operand of a bit-test instruction (BTQ/BTSQ/BTRQ); a position used directly as an operand of & | &^ tests the wrong bits.",
+		Run: runW7})
+}
+
+func runW7(c *core.Ctx) {
+	p := c.Prog
+	bf := bitFamily{p}
+	for _, pk := range p.Pkgs {
+		for _, f := range pk.Syntax {
+			for _, d := range f.Decls {
+				fd, ok := d.(*ast.FuncDecl)
+				if !ok || fd.Body == nil {
+					continue
+				}
+				fn := core.FuncName(pk, fd)
+				// parent map
+				parents := map[ast.Node]ast.Node{}
+				var stack []ast.Node
+				ast.Inspect(fd.Body, func(n ast.Node) bool {
+					if n == nil {
+						stack = stack[:len(stack)-1]
+						return true
+					}
+					if len(stack) > 0 {
+						parents[n] = stack[len(stack)-1]
+					}
+					stack = append(stack, n)
+					return true
+				})
+				k := 0
+				ast.Inspect(fd.Body, func(n ast.Node) bool {
+					var e ast.Expr
+					switch x := n.(type) {
+					case *ast.SelectorExpr:
+						e = x
+					case *ast.Ident:
+						e = x
+					default:
+						return true
+					}
+					kobj, ok := p.ExprObj(e).(*types.Const)
+					if !ok || !core.IsSonic(kobj.Pkg()) {
+						return true
+					}
+					bits, shifted, ok := bf.bitsOf(e, 0)
+					if !ok || len(bits) != 1 || shifted {
+						_, isSel := n.(*ast.SelectorExpr)
+						return !isSel
+					}
+					// e denotes a bit position. classify its context.
+					k++
+					cn := fn + "/bitpos#" + itoa(k) + ":" + bits[0].Name()
+					var par ast.Node = parents[n]
+					for {
+						if pe, ok := par.(*ast.ParenExpr); ok {
+							par = parents[pe]
+							continue
+						}
+						if ce, ok := par.(*ast.CallExpr); ok && len(ce.Args) == 1 && ce.Args[0] == e {
+							// conversion int64(bit)/uint64(bit)
+							if tv := p.TypeOf(ce.Fun); tv != nil {
+								if _, isSig := tv.Underlying().(*types.Signature); !isSig {
+									e = ce
+									par = parents[ce]
+									continue
+								}
+							}
+						}
+						break
+					}
+					verdict := ""
+					switch x := par.(type) {
+					case *ast.BinaryExpr:
+						switch {
+						case x.Op == token.SHL && ast.Unparen(x.Y) == e || x.Op == token.SHL && containsExpr(x.Y, e):
+							verdict = "ok"
+						case x.Op == token.AND || x.Op == token.OR || x.Op == token.AND_NOT || x.Op == token.XOR:
+							verdict = "bit position " + bits[0].Name() + " is used directly as an operand of `" + x.Op.String() + "` (as if it were the mask 1<<" + bits[0].Name() + "): the test reads unrelated option bits"
+						default:
+							verdict = "ok"
+						}
+					case *ast.AssignStmt:
+						switch x.Tok {
+						case token.OR_ASSIGN, token.AND_ASSIGN, token.AND_NOT_ASSIGN, token.XOR_ASSIGN:
+							verdict = "bit position " + bits[0].Name() + " is used directly in `" + x.Tok.String() + "`"
+						default:
+							verdict = "ok"
+						}
+					case *ast.CallExpr:
+						verdict = "ok" // has_opts(flags, bit), jit.Imm(bit)
+					default:
+						verdict = "ok"
+					}
+					if verdict == "ok" {
+						c.OK(cn, e.Pos(), "used as a bit position")
+					} else {
+						c.Bad(cn, e.Pos(), "%s", verdict)
+					}
+					_, isSel := n.(*ast.SelectorExpr)
+					return !isSel
+				})
+			}
+		}
+	}
+}
+
+func containsExpr(root ast.Expr, e ast.Expr) bool {
+	f := false
+	ast.Inspect(root, func(n ast.Node) bool {
+		if n == ast.Node(e) {
+			f = true
+		}
+		return !f
+	})
+	return f
+}
